@@ -113,6 +113,12 @@ def cases(draw):
             'order': list(draw(st.permutations(names))), 'negative': None}
     if draw(st.integers(0, 3)) == 0:
         case['negative'] = draw(st.sampled_from(NEGATIVES))
+    # events and filters may also be created between an explicit finalize() and the start
+    case['late'] = case['explicit'] and draw(st.booleans())
+    if case['late']:
+        for f in filters:
+            if f['ctrl'].startswith('_not_'):
+                f['ctrl'] = f['ctrl'][5:]       # a new inverter cannot be added to a finalized circuit
     return case
 
 
@@ -147,6 +153,33 @@ def execute(case):
             return edzed.Const(v) if r[2] else v
         events = []
         filters = []
+        LATE_NEG = ('cblock_event_dest_obj', 'cblock_event_dest_name', 'unknown_event_dest', 'unknown_control',
+                    'unknown_add_output')
+
+        def make_refs():
+            for e in case['events']:
+                nm = f"s{e['dest']}"
+                events.append((edzed.Event(nm if e['byname'] else objs[nm], 'put'), nm))
+            for f in case['filters']:
+                ctrl = f['ctrl'] if f['byname'] or f['ctrl'] not in objs else objs[f['ctrl']]
+                if f['kind'] == 'ifoutput':
+                    flt = edzed.IfOutput(ctrl)
+                elif f['kind'] == 'notifinit':
+                    flt = edzed.NotIfInitialized(ctrl)
+                else:
+                    flt = edzed.DataEdit.add_output('k', ctrl)
+                filters.append((flt, f))
+            if neg == 'cblock_event_dest_obj':
+                edzed.Event(objs['c0'], 'put')
+            elif neg == 'cblock_event_dest_name':
+                edzed.Event('c0', 'put')
+            elif neg == 'unknown_event_dest':
+                edzed.Event('no_such_block', 'put')
+            elif neg == 'unknown_control':
+                edzed.IfOutput('no_such_block')
+            elif neg == 'unknown_add_output':
+                edzed.DataEdit.add_output('k', 'no_such_block')
+
         try:
             for name in case['order']:
                 if name.startswith('s'):
@@ -168,19 +201,8 @@ def execute(case):
                 kwargs = {k: ([mat(x) for x in v] if k in 'gh' else mat(v)) for k, v in d['named'].items()}
                 blk.connect(*args, **kwargs)
                 objs[name] = blk
-            for e in case['events']:
-                nm = f"s{e['dest']}"
-                events.append((edzed.Event(nm if e['byname'] else objs[nm], 'put'), nm))
-            for f in case['filters']:
-                ctrl = f['ctrl'] if f['byname'] or f['ctrl'] not in objs else objs[f['ctrl']]
-                if f['kind'] == 'ifoutput':
-                    flt = edzed.IfOutput(ctrl)
-                elif f['kind'] == 'notifinit':
-                    flt = edzed.NotIfInitialized(ctrl)
-                else:
-                    flt = edzed.DataEdit.add_output('k', ctrl)
-                filters.append((flt, f))
-            # keep the events alive as somebody's output events (not required by edzed)
+            if not case.get('late'):
+                make_refs()
             # ---- the one invalid element of a negative case
             if neg == 'unknown_input':
                 Noop('neg').connect('no_such_block')
@@ -190,10 +212,6 @@ def execute(case):
                 Noop('neg').connect('s')            # a prefix of existing names is not a name
             elif neg == 'double_shortcut':
                 Noop('neg').connect('_not_s0', '_not__not_s0')  # NAME must not begin with an underscore
-            elif neg == 'cblock_event_dest_obj':
-                edzed.Event(objs['c0'], 'put')
-            elif neg == 'cblock_event_dest_name':
-                edzed.Event('c0', 'put')
             elif neg == 'not_two_inputs':
                 edzed.Not('neg').connect('s0', 's0')
             elif neg == 'not_no_input':
@@ -216,12 +234,6 @@ def execute(case):
                 Noop('neg').connect(edzed.Const(UNDEF))
             elif neg == 'undef_bare':
                 Noop('neg').connect(UNDEF)
-            elif neg == 'unknown_event_dest':
-                edzed.Event('no_such_block', 'put')
-            elif neg == 'unknown_control':
-                edzed.IfOutput('no_such_block')
-            elif neg == 'unknown_add_output':
-                edzed.DataEdit.add_output('k', 'no_such_block')
         except Exception as err:
             raised = err
         obs['raised'] = None if raised is None else type(raised).__name__
@@ -235,14 +247,21 @@ def execute(case):
                 # must not accept what the first one refused
                 obs['finalize_raised'] = type(err).__name__
             else:
-                obs['after_finalize'] = inspect_circuit(circuit, case, objs, events, filters)
+                if case.get('late'):
+                    try:
+                        make_refs()
+                    except Exception as err:
+                        obs['raised'] = type(err).__name__
+                        return
+                else:
+                    obs['after_finalize'] = inspect_circuit(circuit, case, objs, events, filters)
                 obs['frozen'] = frozen(circuit, objs)
         sim = harness.Running()
         await sim.__aenter__()
         obs['started'] = sim.init_error is None
         obs['start_error'] = None if circuit.error is None else type(circuit.error).__name__
         if sim.init_error is None:
-            if not case['explicit'] or 'finalize_raised' in obs:
+            if not case['explicit'] or 'finalize_raised' in obs or case.get('late'):
                 obs['after_finalize'] = inspect_circuit(circuit, case, objs, events, filters)
                 obs['frozen'] = frozen(circuit, objs)
             obs['functional'] = functional(circuit, objs, filters)
@@ -285,6 +304,8 @@ def execute(case):
     byname = any(e['byname'] for e in case['events']) or any(f['byname'] for f in case['filters'])
     res.nontrivial = (shared or repeated) and byname
     res.classes = ['explicit finalize()' if case['explicit'] else 'implicit at start']
+    if case.get('late'):
+        res.classes.append('events and filters created after finalize()')
     if shared:
         res.classes.append('shared inverter')
     if repeated:
